@@ -749,7 +749,7 @@ def main(chk):
         return {"syn": {"seed": rng.randrange(1 << 30), "params": p}}
 
     # sweeps
-    nsweep = chk.pick(24, 3000)
+    nsweep = chk.pick(120, 3000)
     params = idbgen.catalogue(rng, nsweep, minors=(3, 3, 3, 2, 1, 0))
     for p in params:
         p.pop("alt_names", None)
@@ -765,7 +765,7 @@ def main(chk):
     for h, o in reals:
         add({"kind": "sweep", "src": {"real": {"header": h, "opts": _c12.BACKENDS[o]}}})
     # lookups
-    for i in range(chk.pick(15, 1000)):
+    for i in range(chk.pick(60, 1000)):
         pa = dict(size=rng.choice(("small", "medium")), strings=rng.choice(("mixed", "hostile", "plain")),
                   flags="random", dup_names=rng.choice((0.0, 0.2, 0.5)))
         # the second file gets plain (random-identifier) names so that its type names do not collide with the first
